@@ -504,3 +504,5 @@ SUBS = [
     Sub("history", lambda tier: histories(tier), check_history, quick=900, thorough=6000),
     Sub("construct", lambda tier: construct_cases(tier), check_construct, quick=400, thorough=2500),
 ]
+
+RULE += ' Also: assignment to frequencies / errors2 with arrays of other element types; numpy scalar weights of several widths in fill; contents next to the limits of int16 / int32 / float16.'
